@@ -99,7 +99,7 @@ theorem setVal_NB {E : Env} (hS : SetLaws E) {uns : Bool} {t : Ty} (hw : wf t = 
 
 def RecNB (E : Env) (rec : Rec) : Prop :=
   ∀ (inT out : Ty) (uns : Bool) (c : Plan) (v : Value), gck E inT out uns = some c →
-    Conds inT out v → Payload.whollyKnown v.v = true → NB uns (rec (.wrap out c) v)
+    Conds E inT out v → Payload.whollyKnown v.v = true → NB uns (rec (.wrap out c) v)
 
 theorem whollyKnownL_mem : ∀ {ps : List Payload}, Payload.whollyKnownL ps = true →
     ∀ p ∈ ps, Payload.whollyKnown p = true
@@ -116,7 +116,7 @@ include hU hS hrec hnb
 
 omit hU hS hrec in
 theorem planFor_NB {uns : Bool} {it ot : Ty} {p : Plan} {e : Value} (hp : PlanFor E uns it ot p)
-    (hc : Conds it ot e) (hk : Payload.whollyKnown e.v = true) : NB uns (applyOpt rec p e) := by
+    (hc : Conds E it ot e) (hk : Payload.whollyKnown e.v = true) : NB uns (applyOpt rec p e) := by
   rcases hp with ⟨rfl, _⟩ | ⟨c, rfl, hg⟩
   · exact NB.ok _
   · exact hnb it ot uns c e hg hc hk
@@ -128,7 +128,7 @@ def Members (es : List Value) (ie : Ty) : Prop :=
 omit hU hS hrec in
 theorem members_NB {uns : Bool} {ie oe conv} {post : Value → Value}
     (hpf : PlanFor E uns ie oe conv) (hwi : wf ie = true) (hoi : hasOpt ie = false)
-    (hwo : wf oe = true) (hdo : hasDyn oe = false) (hreg : regular ie oe = true)
+    (hwo : wf oe = true) (hdo : hasDyn oe = false) (hreg : regular E ie oe = true)
     {es : List Value} (hes : Members es ie) :
     NB uns (mapRes (fun e => (applyOpt rec conv e).map post) es) := by
   apply mapRes_NB
@@ -139,7 +139,7 @@ theorem members_NB {uns : Bool} {ie oe conv} {post : Value → Value}
 omit hS in
 theorem collToList_NB {uns : Bool} {ie oe conv} {v : Value} {es : List Value}
     (hpf : PlanFor E uns ie oe conv) (hwi : wf ie = true) (hoi : hasOpt ie = false)
-    (hwo : wf oe = true) (hdo : hasDyn oe = false) (hreg : regular ie oe = true)
+    (hwo : wf oe = true) (hdo : hasDyn oe = false) (hreg : regular E ie oe = true)
     (hes : elemsOf E v = .ok es) (hm : Members es ie) :
     NB uns (applyStep E rec (.collToList oe conv) v) := by
   have hnd : oe.isDyn = false := not_isDyn_of_noDyn hdo
@@ -162,7 +162,7 @@ theorem collToList_NB {uns : Bool} {ie oe conv} {v : Value} {es : List Value}
 
 theorem collToSet_NB {uns : Bool} {ie oe conv} {v : Value} {es : List Value}
     (hpf : PlanFor E uns ie oe conv) (hwi : wf ie = true) (hoi : hasOpt ie = false)
-    (hwo : wf oe = true) (hdo : hasDyn oe = false) (hreg : regular ie oe = true)
+    (hwo : wf oe = true) (hdo : hasDyn oe = false) (hreg : regular E ie oe = true)
     (hes : elemsOf E v = .ok es) (hm : Members es ie) :
     NB uns (applyStep E rec (.collToSet oe conv) v) := by
   have hnd : oe.isDyn = false := not_isDyn_of_noDyn hdo
@@ -184,7 +184,7 @@ theorem collToSet_NB {uns : Bool} {ie oe conv} {v : Value} {es : List Value}
 omit hS in
 theorem collToMap_NB {uns : Bool} {ie oe conv} {v : Value} {es : List Value}
     (hpf : PlanFor E uns ie oe conv) (hwi : wf ie = true) (hoi : hasOpt ie = false)
-    (hwo : wf oe = true) (hdo : hasDyn oe = false) (hreg : regular ie oe = true)
+    (hwo : wf oe = true) (hdo : hasDyn oe = false) (hreg : regular E ie oe = true)
     (hes : elemsOf E v = .ok es) (hm : Members es ie) :
     NB uns (applyStep E rec (.collToMap oe conv) v) := by
   have hnd : oe.isDyn = false := not_isDyn_of_noDyn hdo
@@ -215,7 +215,7 @@ omit hU hS hrec in
 theorem applyZip_all_NB {uns : Bool} {t : Ty} (post : Value → Value) (hwt : wf t = true) (hdt : hasDyn t = false) :
     ∀ (its : List Ty) (cs : List Plan) (ps : List Payload),
     All2 (fun it p => PlanFor E uns it t p) its cs → wtZip its ps = true → Payload.whollyKnownL ps = true →
-    (∀ it ∈ its, wf it = true ∧ hasOpt it = false ∧ regular it t = true) →
+    (∀ it ∈ its, wf it = true ∧ hasOpt it = false ∧ regular E it t = true) →
     NB uns (applyZip rec post cs (zipTys its ps))
   | [], _, [], .nil, _, _, _ => by simp only [zipTys, applyZip]; exact NB.ok _
   | [], _, _ :: _, _, hw, _, _ => by simp [wtZip] at hw
@@ -235,7 +235,7 @@ theorem applyZip_zip_NB {uns : Bool} :
     All3 (fun it ot p => PlanFor E uns it ot p) its ots cs → wtZip its ps = true →
     Payload.whollyKnownL ps = true →
     wfL its = true → hasOptL its = false → wfL ots = true → hasDynL ots = false →
-    regularZip its ots = true → NB uns (applyZip rec id cs (zipTys its ps))
+    regularZip E its ots = true → NB uns (applyZip rec id cs (zipTys its ps))
   | [], _, _, [], .nil, _, _, _, _, _, _, _ => by simp only [zipTys, applyZip]; exact NB.ok _
   | [], _, _, _ :: _, _, hw, _, _, _, _, _, _ => by simp [wtZip] at hw
   | _ :: _, _, _, [], _, hw, _, _, _, _, _, _ => by simp [wtZip] at hw
@@ -255,7 +255,7 @@ omit hS in
 theorem tupToList_NB {uns : Bool} {its : List Ty} {oe : Ty} {cs : List Plan} {ps : List Payload}
     (hpl : All2 (fun it p => PlanFor E uns it oe p) its cs) (hne : its ≠ []) (hw : wtZip its ps = true)
     (hk : Payload.whollyKnownL ps = true)
-    (hall : ∀ it ∈ its, wf it = true ∧ hasOpt it = false ∧ regular it oe = true)
+    (hall : ∀ it ∈ its, wf it = true ∧ hasOpt it = false ∧ regular E it oe = true)
     (hwo : wf oe = true) (hdo : hasDyn oe = false) :
     NB uns (applyStep E rec (.tupToList cs uns) ⟨.tuple its, .seq ps⟩) := by
   simp only [applyStep, elemsOf]
@@ -278,7 +278,7 @@ omit hU in
 theorem tupToSet_NB {uns : Bool} {its : List Ty} {oe : Ty} {cs : List Plan} {ps : List Payload}
     (hpl : All2 (fun it p => PlanFor E uns it oe p) its cs) (hne : its ≠ []) (hw : wtZip its ps = true)
     (hk : Payload.whollyKnownL ps = true)
-    (hall : ∀ it ∈ its, wf it = true ∧ hasOpt it = false ∧ regular it oe = true)
+    (hall : ∀ it ∈ its, wf it = true ∧ hasOpt it = false ∧ regular E it oe = true)
     (hwo : wf oe = true) (hdo : hasDyn oe = false) :
     NB uns (applyStep E rec (.tupToSet cs) ⟨.tuple its, .seq ps⟩) := by
   simp only [applyStep, elemsOf]
@@ -301,7 +301,7 @@ theorem objToMap_NB {uns : Bool} {inn : List String} {its : List Ty} {ios : List
     {cs : List Plan} {ps : List Payload}
     (hpl : All2 (fun it p => PlanFor E uns it oe p) its cs) (hne : its ≠ []) (hw : wtZip its ps = true)
     (hk : Payload.whollyKnownL ps = true) (hnd : inn.Nodup) (hln : inn.length = its.length)
-    (hall : ∀ it ∈ its, wf it = true ∧ hasOpt it = false ∧ regular it oe = true)
+    (hall : ∀ it ∈ its, wf it = true ∧ hasOpt it = false ∧ regular E it oe = true)
     (hwo : wf oe = true) (hdo : hasDyn oe = false) :
     NB uns (applyStep E rec (.objToMap inn cs oe uns) ⟨.object inn its ios, .smap inn ps⟩) := by
   simp only [applyStep, elemsOf, keysOf]
@@ -333,7 +333,7 @@ theorem tupToTup_NB {uns : Bool} {its ots : List Ty} {cs : List Plan} {ps : List
     (hpl : All3 (fun it ot p => PlanFor E uns it ot p) its ots cs) (hw : wtZip its ps = true)
     (hk : Payload.whollyKnownL ps = true)
     (hwi : wfL its = true) (hoi : hasOptL its = false) (hwo : wfL ots = true) (hdo : hasDynL ots = false)
-    (hr : regularZip its ots = true) :
+    (hr : regularZip E its ots = true) :
     NB uns (applyStep E rec (.tupToTup cs) ⟨.tuple its, .seq ps⟩) := by
   simp only [applyStep, elemsOf]
   refine NB.bind (NB.ok _) fun es0 h0 => ?_
@@ -356,7 +356,7 @@ theorem objAttrLoop_NB {uns : Bool} {on : List String} {ot : List Ty} {oo : List
     have ih := objAttrLoop_NB ns its cs ps hoks hw.2 hk.2
     rcases hap with ⟨rfl, _⟩ | ⟨oty, o, hf, hpf⟩
     · exact ih
-    · have hc : Conds it oty ⟨it, p⟩ :=
+    · have hc : Conds E it oty ⟨it, p⟩ :=
         ⟨rfl, hwi, (hout oty o hf).1, hoi, (hout oty o hf).2.1, (hout oty o hf).2.2, hw.1⟩
       have hstep := planFor_NB hnb hpf hc hk.1
       rcases hpf with ⟨rfl, _⟩ | ⟨c', rfl, _⟩ <;>
@@ -369,7 +369,7 @@ theorem objToObj_NB {uns : Bool} {inn : List String} {its : List Ty} {ios : List
     (hk : Payload.whollyKnownL ps = true)
     (hwfI : wf (.object inn its ios) = true) (hoI : hasOpt (.object inn its ios) = false)
     (hwfO : wf (.object on ot oo) = true) (hdO : hasDyn (.object on ot oo) = false)
-    (hreg : regularObj inn its ios on ot = true) :
+    (hreg : regularObj E inn its ios on ot = true) :
     NB uns (applyStep E rec (.objToObj inn cs on ot oo) ⟨.object inn its ios, .smap inn ps⟩) := by
   simp only [wf, Bool.and_eq_true, beq_iff_eq] at hwfI hwfO
   simp only [hasOpt, Bool.or_eq_false_iff] at hoI
@@ -395,7 +395,7 @@ theorem mapObjLoop_NB {ie : Ty} {names : List String} {tys : List Ty} {opts : Li
     (hl1 : names.length = tys.length) (hl2 : opts.length = tys.length)
     (hwi : wf ie = true) (hoi : hasOpt ie = false)
     (hty : ∀ n t o, Ty.find n names tys opts = some (t, o) →
-      wf t = true ∧ hasDyn t = false ∧ regular ie t = true) :
+      wf t = true ∧ hasDyn t = false ∧ regular E ie t = true) :
     ∀ (ks : List String) (ps : List Payload), wtAll ie ps = true → Payload.whollyKnownL ps = true →
     NB true (mapObjLoop rec names tys opts convs ks (ps.map fun p => ⟨ie, p⟩))
   | [], _, _, _ => by simp only [mapObjLoop]; exact NB.ok _
@@ -441,7 +441,7 @@ theorem mapToObj_NB {ie : Ty} {on : List String} {ot : List Ty} {oo : List Bool}
     (hk : Payload.whollyKnownL ps = true)
     (hwi : wf ie = true) (hoi : hasOpt ie = false)
     (hwfO : wf (.object on ot oo) = true) (hdO : hasDyn (.object on ot oo) = false)
-    (hreg : regularAll ie ot = true) :
+    (hreg : regularAll E ie ot = true) :
     NB true (applyStep E rec (.mapToObj on ot oo cs) ⟨.map ie, .smap ks ps⟩) := by
   simp only [wf, Bool.and_eq_true, beq_iff_eq] at hwfO
   simp only [hasDyn] at hdO
@@ -507,7 +507,7 @@ theorem parse512_no_panic (s : String) (w : String) : Num.parse512 s ≠ .panic 
 
 theorem inner_NB {E : Env} (hU : UnifyLaws E) (hS : SetLaws E) {rec : Rec} (hrec : RecOK E rec)
     (hnb : RecNB E rec) (inT out : Ty) (uns : Bool) (c : Plan) (v : Value)
-    (hg : gck E inT out uns = some c) (hc : Conds inT out v) (hp : plain v.v)
+    (hg : gck E inT out uns = some c) (hc : Conds E inT out v) (hp : plain v.v)
     (hk : Payload.whollyKnown v.v = true) : NB uns (applyStep E rec c v) := by
   obtain ⟨hty, hwI, hwO, hoI, hdO, hreg, hwt⟩ := hc
   obtain ⟨vt, vp⟩ := v
@@ -550,7 +550,7 @@ theorem inner_NB {E : Env} (hU : UnifyLaws E) (hS : SetLaws E) {rec : Rec} (hrec
     case list ie =>
       have hwi : wf ie = true := by simpa [wf] using hwI
       have hoi : hasOpt ie = false := by simpa [hasOpt] using hoI
-      have hr : regular ie oe = true := by simpa [regular, Ty.isDyn] using hreg
+      have hr : regular E ie oe = true := by simpa [regular, Ty.isDyn] using hreg
       obtain ⟨ps, rfl, hps⟩ := shape_list hp hwt
       have hkl : Payload.whollyKnownL ps = true := by simpa [Payload.whollyKnown] using hk
       have hm : Members (ps.map fun p => (⟨ie, p⟩ : Value)) ie := by
@@ -567,7 +567,7 @@ theorem inner_NB {E : Env} (hU : UnifyLaws E) (hS : SetLaws E) {rec : Rec} (hrec
     case set ie =>
       have hwi : wf ie = true := by simpa [wf] using hwI
       have hoi : hasOpt ie = false := by simpa [hasOpt] using hoI
-      have hr : regular ie oe = true := by simpa [regular, Ty.isDyn] using hreg
+      have hr : regular E ie oe = true := by simpa [regular, Ty.isDyn] using hreg
       obtain ⟨ids, ps, rfl, hps⟩ := shape_set hp hwt
       have hkl : Payload.whollyKnownL ps = true := by simpa [Payload.whollyKnown] using hk
       have hm : Members ((setValues E ie ps).map fun p => (⟨ie, p⟩ : Value)) ie := by
@@ -584,9 +584,10 @@ theorem inner_NB {E : Env} (hU : UnifyLaws E) (hS : SetLaws E) {rec : Rec} (hrec
     case tuple its =>
       have hwi : wfL its = true := by simpa [wf] using hwI
       have hoi : hasOptL its = false := by simpa [hasOpt] using hoI
-      have hr : ∀ it ∈ its, regular it oe = true := by
-        have : (its.all fun it => regular it oe) = true := by simpa [regular, Ty.isDyn] using hreg
-        exact all_of_regular this
+      have hr : ∀ it ∈ its, regular E it oe = true := by
+        have := hreg
+        simp only [regular, Ty.isDyn, Bool.false_eq_true, if_false, Bool.and_eq_true] at this
+        exact all_of_regular this.1
       obtain ⟨ps, rfl, hps⟩ := shape_tuple hp hwt
       have hkl : Payload.whollyKnownL ps = true := by simpa [Payload.whollyKnown] using hk
       split at hg
@@ -607,7 +608,7 @@ theorem inner_NB {E : Env} (hU : UnifyLaws E) (hS : SetLaws E) {rec : Rec} (hrec
     case list ie =>
       have hwi : wf ie = true := by simpa [wf] using hwI
       have hoi : hasOpt ie = false := by simpa [hasOpt] using hoI
-      have hr : regular ie oe = true := by simpa [regular, Ty.isDyn] using hreg
+      have hr : regular E ie oe = true := by simpa [regular, Ty.isDyn] using hreg
       obtain ⟨ps, rfl, hps⟩ := shape_list hp hwt
       have hkl : Payload.whollyKnownL ps = true := by simpa [Payload.whollyKnown] using hk
       have hm : Members (ps.map fun p => (⟨ie, p⟩ : Value)) ie := by
@@ -625,7 +626,7 @@ theorem inner_NB {E : Env} (hU : UnifyLaws E) (hS : SetLaws E) {rec : Rec} (hrec
     case set ie =>
       have hwi : wf ie = true := by simpa [wf] using hwI
       have hoi : hasOpt ie = false := by simpa [hasOpt] using hoI
-      have hr : regular ie oe = true := by simpa [regular, Ty.isDyn] using hreg
+      have hr : regular E ie oe = true := by simpa [regular, Ty.isDyn] using hreg
       obtain ⟨ids, ps, rfl, hps⟩ := shape_set hp hwt
       have hkl : Payload.whollyKnownL ps = true := by simpa [Payload.whollyKnown] using hk
       have hm : Members ((setValues E ie ps).map fun p => (⟨ie, p⟩ : Value)) ie := by
@@ -642,9 +643,10 @@ theorem inner_NB {E : Env} (hU : UnifyLaws E) (hS : SetLaws E) {rec : Rec} (hrec
     case tuple its =>
       have hwi : wfL its = true := by simpa [wf] using hwI
       have hoi : hasOptL its = false := by simpa [hasOpt] using hoI
-      have hr : ∀ it ∈ its, regular it oe = true := by
-        have : (its.all fun it => regular it oe) = true := by simpa [regular, Ty.isDyn] using hreg
-        exact all_of_regular this
+      have hr : ∀ it ∈ its, regular E it oe = true := by
+        have := hreg
+        simp only [regular, Ty.isDyn, Bool.false_eq_true, if_false, Bool.and_eq_true] at this
+        exact all_of_regular this.1
       obtain ⟨ps, rfl, hps⟩ := shape_tuple hp hwt
       have hkl : Payload.whollyKnownL ps = true := by simpa [Payload.whollyKnown] using hk
       split at hg
@@ -665,7 +667,7 @@ theorem inner_NB {E : Env} (hU : UnifyLaws E) (hS : SetLaws E) {rec : Rec} (hrec
     case map ie =>
       have hwi : wf ie = true := by simpa [wf] using hwI
       have hoi : hasOpt ie = false := by simpa [hasOpt] using hoI
-      have hr : regular ie oe = true := by simpa [regular, Ty.isDyn] using hreg
+      have hr : regular E ie oe = true := by simpa [regular, Ty.isDyn] using hreg
       obtain ⟨ks, ps, rfl, _, hps⟩ := shape_map hp hwt
       have hkl : Payload.whollyKnownL ps = true := by simpa [Payload.whollyKnown] using hk
       have hm : Members (ps.map fun p => (⟨ie, p⟩ : Value)) ie := by
@@ -679,9 +681,10 @@ theorem inner_NB {E : Env} (hU : UnifyLaws E) (hS : SetLaws E) {rec : Rec} (hrec
         simp only [wf, Bool.and_eq_true] at hwI; exact hwI.2
       have hoi : hasOptL its = false := by
         simp only [hasOpt, Bool.or_eq_false_iff] at hoI; exact hoI.2
-      have hr : ∀ it ∈ its, regular it oe = true := by
-        have : (its.all fun it => regular it oe) = true := by simpa [regular, Ty.isDyn] using hreg
-        exact all_of_regular this
+      have hr : ∀ it ∈ its, regular E it oe = true := by
+        have := hreg
+        simp only [regular, Ty.isDyn, Bool.false_eq_true, if_false, Bool.and_eq_true] at this
+        exact all_of_regular this.1
       obtain ⟨ps, rfl, hps⟩ := shape_object hp hwt
       have hkl : Payload.whollyKnownL ps = true := by simpa [Payload.whollyKnown] using hk
       split at hg
@@ -702,7 +705,7 @@ theorem inner_NB {E : Env} (hU : UnifyLaws E) (hS : SetLaws E) {rec : Rec} (hrec
       obtain ⟨hlen, cs, hcs, rfl⟩ := hg
       obtain ⟨ps, rfl, hps⟩ := shape_tuple hp hwt
       have hkl : Payload.whollyKnownL ps = true := by simpa [Payload.whollyKnown] using hk
-      have hr : regularZip its ots = true := by
+      have hr : regularZip E its ots = true := by
         have := hreg; simp [regular, Ty.isDyn] at this; exact this.2
       have hpl := gcZip_inv E uns hlen hcs
       exact tupToTup_NB hnb hpl hps hkl (by simpa [wf] using hwI) (by simpa [hasOpt] using hoI)
@@ -719,12 +722,12 @@ theorem inner_NB {E : Env} (hU : UnifyLaws E) (hS : SetLaws E) {rec : Rec} (hrec
       simp only [wf, Bool.and_eq_true, beq_iff_eq] at hwO'
       have hpl := mapToObjConvs_inv E true ie (hwO'.1.1.2.symm) hcs
       exact mapToObj_NB hnb hpl hps hkl (by simpa [wf] using hwI) (by simpa [hasOpt] using hoI)
-        hwO hdO hr.1
+        hwO hdO hr
     case object inn its ios =>
       obtain ⟨hreq, cs, hcs, rfl⟩ := hg
       obtain ⟨ps, rfl, hps⟩ := shape_object hp hwt
       have hkl : Payload.whollyKnownL ps = true := by simpa [Payload.whollyKnown] using hk
-      have hr : regularObj inn its ios on ot = true := by simpa [regular, Ty.isDyn] using hreg
+      have hr : regularObj E inn its ios on ot = true := by simpa [regular, Ty.isDyn] using hreg
       have hwI' := hwI
       simp only [wf, Bool.and_eq_true, beq_iff_eq] at hwI'
       have hpl := gcObj_inv E uns on ot oo hwI'.1.1.1 hcs
@@ -754,7 +757,7 @@ theorem recNB_apply {E : Env} (hU : UnifyLaws E) (hS : SetLaws E) : ∀ n, RecNB
       simp only [apply, applyStep]
       split
       · rename_i hm
-        have hc' : Conds inT out v.unmark :=
+        have hc' : Conds E inT out v.unmark :=
           ⟨hc.ty, hc.wfI, hc.wfO, hc.optI, hc.dynO, hc.reg, unmark_wt hm hc.wt⟩
         have := ih n (Nat.lt_succ_self n) inT out uns c v.unmark hg hc' (unmark_whollyKnown hk)
         cases hres : apply E n (.wrap out c) v.unmark with
@@ -767,8 +770,7 @@ theorem recNB_apply {E : Env} (hU : UnifyLaws E) (hS : SetLaws E) : ∀ n, RecNB
         have hkn := known_of_whollyKnown hm' hk
         simp only [hnd, Bool.false_eq_true, if_false, hkn, Bool.not_true, Bool.false_or]
         split
-        · have hrepl := dynRepl_id E hU inT (stripOpt out) (regular_stripOpt inT out hc.reg)
-            (by rw [stripOpt_hasDyn]; exact hc.dynO) (stripOpt_noOpt out) (wf_stripOpt out hc.wfO)
+        · have hrepl := dynRepl_id E hU inT out hc.reg hc.dynO hc.wfO
           rw [hc.ty, hrepl]
           exact NB.ok _
         · rename_i hnn
@@ -779,9 +781,9 @@ theorem recNB_apply {E : Env} (hU : UnifyLaws E) (hS : SetLaws E) : ∀ n, RecNB
             exact inner_NB hU hS (recOK_apply hU m) (ih m (by omega)) inT out uns c v hg hc
               ⟨hm', hkn, (by simpa using hnn : v.isNull = false)⟩ hk
 
-/-- `Convert` never panics on a wholly-known value of a regular pair -/
+/-- `Convert` never panics on a wholly-known value of a regular E pair -/
 theorem convert_NB {E : Env} (hU : UnifyLaws E) (hS : SetLaws E) {v : Value} {want : Ty} (fuel : Nat)
-    (hp : RegularPair v want) (hk : Payload.whollyKnown v.v = true) : NB true (convert E fuel v want) := by
+    (hp : RegularPair E v want) (hk : Payload.whollyKnown v.v = true) : NB true (convert E fuel v want) := by
   unfold convert convertWith
   split
   · exact NB.ok _
@@ -793,7 +795,7 @@ theorem convert_NB {E : Env} (hU : UnifyLaws E) (hS : SetLaws E) {v : Value} {wa
 
 /-- a conversion obtained from `getConversion` -/
 theorem apply_NB {E : Env} (hU : UnifyLaws E) (hS : SetLaws E) {v : Value} {want : Ty} {uns : Bool} {p : Plan}
-    (fuel : Nat) (hp : RegularPair v want) (hk : Payload.whollyKnown v.v = true)
+    (fuel : Nat) (hp : RegularPair E v want) (hk : Payload.whollyKnown v.v = true)
     (hg : getConv E v.ty want uns = some p) : NB uns (apply E fuel p v) := by
   obtain ⟨c, hc, rfl⟩ := Option.map_eq_some_iff.mp hg
   exact recNB_apply hU hS fuel v.ty want uns c v hc hp.conds hk
